@@ -49,6 +49,31 @@ type Case struct {
 	M2 *gen.MeshDesc `json:",omitempty"`
 	P  []float64     `json:",omitempty"`
 	X  []int         `json:",omitempty"`
+	// Scale != 0: every position of M (and M2) is multiplied by it before the operation runs: models
+	// in kilometres or in micrometres. Only drawn for operations whose contract is free of absolute
+	// lengths (scaledOps), where an absolute epsilon inside the library is a defect.
+	Scale float64 `json:",omitempty"`
+}
+
+var scaledOps = map[string]bool{"smooth": true, "flat": true, "laplacian": true, "scaleAlongNormal": true, "center": true, "rotate": true, "trs": true,
+	"translate": true, "unweld": true, "unref": true, "flip": true, "append": true, "appendTwice": true}
+
+func scaledDesc(d gen.MeshDesc, k float64) gen.MeshDesc {
+	rows, ok := d.V3[modeling.PositionAttribute]
+	if !ok {
+		return d
+	}
+	out := d
+	out.V3 = map[string][][3]gen.F{}
+	for name, r := range d.V3 {
+		out.V3[name] = r
+	}
+	scaled := make([][3]gen.F, len(rows))
+	for i, r := range rows {
+		scaled[i] = [3]gen.F{r[0] * gen.F(k), r[1] * gen.F(k), r[2] * gen.F(k)}
+	}
+	out.V3[modeling.PositionAttribute] = scaled
+	return out
 }
 
 var ops = []string{"unweld", "unref", "flip", "flip2", "weld", "weldAfterUnweld", "nullfaces", "append", "repeat", "pointcloud",
@@ -85,6 +110,9 @@ func genCase(t *rapid.T) Case {
 	}
 	for i := 0; i < 8; i++ {
 		c.P = append(c.P, gen.DefaultVal().Draw(t, "p"))
+	}
+	if scaledOps[op] && rapid.IntRange(0, 3).Draw(t, "scaled") == 0 {
+		c.Scale = math.Pow(10, float64(rapid.SampledFrom([]int{-9, -6, -5, -4, -3, 3, 6, 9}).Draw(t, "scale10")))
 	}
 	switch op {
 	case "weld", "weldAfterUnweld":
@@ -178,6 +206,22 @@ func sameExcept(before, after modeling.Mesh, changed string, mayAdd bool) error 
 }
 
 func runCase(c Case, o *vh.Obs) *vh.Failure {
+	if c.Scale != 0 && c.Scale != 1 {
+		if !scaledOps[c.Op] || math.IsNaN(c.Scale) || math.Abs(c.Scale) < 1e-12 || math.Abs(c.Scale) > 1e12 {
+			o.Class("out-of-domain")
+			return nil
+		}
+		c.M = scaledDesc(c.M, c.Scale)
+		if c.M2 != nil {
+			m2 := scaledDesc(*c.M2, c.Scale)
+			c.M2 = &m2
+		}
+		if math.Abs(c.Scale) < 1 {
+			o.Class("scale/small")
+		} else {
+			o.Class("scale/large")
+		}
+	}
 	m := c.M.Build()
 	P := append(append([]float64{}, c.P...), make([]float64, 8)...)
 	X := append(append([]int{}, c.X...), 0, 0)
@@ -728,6 +772,12 @@ func runOp(c Case, m modeling.Mesh, P []float64, X []int, a vector3.Float64, q q
 	case "smooth", "flat", "laplacian":
 		pos := m.Float3Attribute(modeling.PositionAttribute)
 		n := pos.Len()
+		ext := 0.0 // largest coordinate: "no area" is judged relative to the model's size
+		for v := 0; v < n; v++ {
+			ext = math.Max(ext, pos.At(v).MaxComponent())
+			ext = math.Max(ext, -pos.At(v).MinComponent())
+		}
+		tiny := 1e-9 * ext * ext
 		switch c.Op {
 		case "smooth":
 			r := meshops.SmoothNormals(m)
@@ -745,7 +795,7 @@ func runOp(c Case, m modeling.Mesh, P []float64, X []int, a vector3.Float64, q q
 				return fail("normal-count", "%d normals for %d vertices", rn.Len(), n)
 			}
 			for v := 0; v < n; v++ {
-				if sum[v].ContainsNaN() || sum[v].Length() < 1e-9 {
+				if sum[v].ContainsNaN() || sum[v].Length() == 0 || sum[v].Length() < tiny {
 					continue
 				}
 				if !near(sum[v].Normalized(), rn.At(v), 1e-9) {
@@ -767,7 +817,7 @@ func runOp(c Case, m modeling.Mesh, P []float64, X []int, a vector3.Float64, q q
 			for i := 0; i+2 < idx.Len(); i += 3 {
 				fn := pos.At(idx.At(i + 1)).Sub(pos.At(idx.At(i))).Cross(pos.At(idx.At(i + 2)).Sub(pos.At(idx.At(i))))
 				for _, v := range []int{idx.At(i), idx.At(i + 1), idx.At(i + 2)} {
-					if fn.Length() < 1e-9 {
+					if fn.Length() == 0 || fn.Length() < tiny {
 						undefined[v] = true
 					} else {
 						faces[v] = append(faces[v], fn.Normalized())
